@@ -204,6 +204,44 @@ def make_fixed_write(nrows, delim, widths_of_rows, concrete=None, encodable_belo
     return mk, replay
 
 
+def make_encoding_replay(delim):
+    """real replay of the encoding-fault query: an ASCII encoded file as target (path), the row from the model and a
+    row with an unencodable character in the second field; afterwards the file holds exactly the accepted rows"""
+
+    def replay(args):
+        import os
+        import shutil
+        import tempfile
+        from cutplace import interface, validio, errors
+        text = "d,format,fixed\nd,line delimiter,%s\nd,encoding,ascii\nf,a,,,2,Text\nf,b,,X,1,Text\n" % delim
+        sep = SEP[delim]
+        d = tempfile.mkdtemp()
+        try:
+            p = os.path.join(d, "out.txt")
+            cid = interface.create_cid_from_string(text)
+            rows = [[args["c0"], args["c1"]], ["ab", "\xe9"], ["cd", "e"]]
+            accepted = []
+            w = validio.Writer(cid, p)
+            for row in rows:
+                try:
+                    w.write_row(row)
+                    accepted.append(row)
+                except errors.DataError:
+                    pass
+                except Exception as e:  # noqa
+                    return True, "write_row(%r) raised %s: %s" % (row, type(e).__name__, e), "writer-fixed-encoding"
+            w.close()
+            with open(p, "r", encoding="ascii", newline="") as f:
+                content = f.read()
+            exp = "".join(r[0].ljust(2) + r[1].ljust(1) + sep for r in accepted)
+            return content != exp, "rows %r: accepted %r, file holds %r, expected %r" % (rows, accepted, content, exp), \
+                "writer-fixed-encoding"
+        finally:
+            shutil.rmtree(d)
+
+    return replay
+
+
 def make_delimited_write(nrows, widths_of_rows, unique):
     keys = ("t12", "t01")
     checks = ("c,u,IsUnique,%s" % rf.field_names(keys)[0],) if unique else ()
@@ -456,11 +494,12 @@ def build(tier, seed):
     for nrows, delim, widths, conc in fixed:
         mk, rp = make_fixed_write(nrows, delim, widths, conc)
         if not conc and nrows == 1:
-            mk2, rp2 = make_fixed_write(nrows, delim, widths, conc, encodable_below=128)
+            mk2, _ = make_fixed_write(nrows, delim, widths, conc, encodable_below=128)
+            rp2 = make_encoding_replay(delim)
             q.append(Query("C14/fixed-write/rows=1/%s/target-encodes-ascii-only" % delim, "writer-fixed-encoding", mk2,
                            "as above with cells over Latin-1 and a target stream that raises UnicodeEncodeError for "
                            "characters >= 128 (all-or-nothing per write call): an unencodable row is rejected and nothing "
-                           "of it is emitted", budget_s=900, per_path_timeout=120, replay=None, functions=FUNCS,
+                           "of it is emitted", budget_s=900, per_path_timeout=120, replay=rp2, functions=FUNCS,
                            stubs=("S-STREAM with encoding fault", "S-FMT")))
         q.append(Query("C14/fixed-write/rows=%d/%s/w=%s%s" % (nrows, delim, ",".join(map(str, widths)),
                                                               "/concrete=%s" % ",".join(map(str, sorted(conc))) if conc else ""), "writer-fixed", mk,
